@@ -7,6 +7,23 @@ structure DS where
 
 def stepLine (d : DS) (args : List String) : DS × String :=
   match args with
+  | ["byref", reg, prov, client, ro] =>
+    match decStr client with
+    | none => (d, "bad-op")
+    | some cl =>
+      let p : Policy := { registeredAlg := if reg = "-" then none else some reg, providerAlgs := prov.splitOn "," }
+      match ro.splitOn ":" with
+      | [v, alg, cid, iss] =>
+        let c : Option (Option Str) := if cid = "-" then some none else (decStr cid).map some
+        let i : Option (Option Str) := if iss = "-" then some none else (decStr iss).map some
+        match c, i with
+        | some c', some i' =>
+          -- outer: o=u ; the object: i=n and o=x (an inner value for the outer name)
+          (d, match byReference p cl [([111], [117])] { verifies := v = "1", alg := alg, clientId := c', iss := i', params := [([105], [110]), ([111], [120])] } with
+            | .refused => "refused"
+            | .effective ps => if ps = [([105], [110]), ([111], [120])] then "inner" else "outer")
+        | _, _ => (d, "bad-op")
+      | _ => (d, "bad-op")
   | ["byvalue", reg, prov, client, ro] =>
     match decStr client with
     | none => (d, "bad-op")
